@@ -44,4 +44,30 @@ def nuclearLmi {R : Type} [CommRing R] (W1 : Matrix n n R) (U : Matrix n m R) (W
     Matrix (n ⊕ m) (n ⊕ m) R :=
   fromBlocks W1 U Uᵀ W2
 
+/-! ### weighted systems of `_create_ss`: series connection of the identified model `(Am, Bm, Cm, Dm)` with a
+filter `(Aw, Bw, Cw, Dw)` -/
+section series
+variable {R : Type} [CommRing R] {a b c d e : Type}
+  [Fintype a] [Fintype b] [Fintype c] [Fintype d] [Fintype e]
+  [DecidableEq a] [DecidableEq b]
+
+/-- `'post'`: the filter acts on the model output.  State `(xm, xw)`. -/
+def postA (Am : Matrix a a R) (Aw : Matrix b b R) (Bw : Matrix b c R) (Cm : Matrix c a R) :
+    Matrix (a ⊕ b) (a ⊕ b) R := fromBlocks Am 0 (Bw * Cm) Aw
+def postB (Bm : Matrix a d R) (Bw : Matrix b c R) (Dm : Matrix c d R) : Matrix (a ⊕ b) d R :=
+  fromRows Bm (Bw * Dm)
+def postC (Cm : Matrix c a R) (Cw : Matrix e b R) (Dw : Matrix e c R) : Matrix e (a ⊕ b) R :=
+  fromCols (Dw * Cm) Cw
+def postD (Dw : Matrix e c R) (Dm : Matrix c d R) : Matrix e d R := Dw * Dm
+
+/-- `'pre'`: the filter acts on the model input.  State `(xw, xm)`. -/
+def preA (Am : Matrix a a R) (Aw : Matrix b b R) (Bm : Matrix a c R) (Cw : Matrix c b R) :
+    Matrix (b ⊕ a) (b ⊕ a) R := fromBlocks Aw 0 (Bm * Cw) Am
+def preB (Bw : Matrix b d R) (Bm : Matrix a c R) (Dw : Matrix c d R) : Matrix (b ⊕ a) d R :=
+  fromRows Bw (Bm * Dw)
+def preC (Cm : Matrix e a R) (Cw : Matrix c b R) (Dm : Matrix e c R) : Matrix e (b ⊕ a) R :=
+  fromCols (Dm * Cw) Cm
+def preD (Dm : Matrix e c R) (Dw : Matrix c d R) : Matrix e d R := Dm * Dw
+end series
+
 end PkLA
